@@ -147,3 +147,25 @@ Definition val_version_ok (d : defaults) (v : Z) (us : list dunit) : Prop :=
    description only if every transform described is symmetric *)
 Definition etp_codable (d : defaults) (v : Z) (us : list dunit) : Prop :=
   3 <= v \/ forall u, In u us -> val_has_tp d u = true -> symmetric_tp d (val_tp d u).
+
+(* ---- the features autofill_major_version looks at (its first loop), as a list ------------------ *)
+Definition af_header_feats (d : defaults) (h : seqhdr) : list Z :=
+  [profile_version_implication (getd (sh_profile h) (d_profile d))] ++
+  val_preset_always preset_frame_rate_version_implication (preset_on (sh_frame_rate h) (d_frame_rate d)) ++
+  val_preset_always preset_signal_range_version_implication (preset_on (sh_signal_range h) (d_signal_range d)) ++
+  match preset_on (sh_color_spec h) (d_color_spec d) with
+  | Some i =>
+      [preset_color_spec_version_implication i] ++
+      (if i =? 0 then
+        val_preset_always preset_color_primaries_version_implication (preset_on (sh_color_primaries h) (d_color_primaries d)) ++
+        val_preset_always preset_color_matrix_version_implication (preset_on (sh_color_matrix h) (d_color_matrix d)) ++
+        val_preset_always preset_transfer_function_version_implication (preset_on (sh_transfer_function h) (d_transfer_function d))
+       else [])
+  | None => []
+  end.
+Definition af_unit_feats (d : defaults) (u : dunit) : list Z :=
+  let pc := eff_parse_code d u in
+  parse_code_version_implication pc ::
+  (if pc =? PC_SEQUENCE_HEADER then af_header_feats d (u_sh u)
+   else match get_tp d u with Some tp => [tp_version d tp] | None => [] end).
+Definition af_feats (d : defaults) (us : list dunit) : list Z := flat_map (af_unit_feats d) us.
